@@ -6,6 +6,7 @@ import KcpVerif.Lemmas.KcpTimer
 import KcpVerif.Lemmas.KcpMove
 import KcpVerif.Lemmas.SysCleanRun
 import KcpVerif.Lemmas.SysProgress
+import KcpVerif.Lemmas.SysProgress2
 /-! C02 — eventual delivery: a healed network always drains the backlog. -/
 namespace KcpVerif.Props
 open KcpVerif KcpVerif.Gen KcpVerif.Kcp KcpVerif.Live
@@ -560,5 +561,40 @@ example : (Sys.run (Sys.init c02A c02A 3 1000) c02Evs1).now = 1000 ∧
     (Sys.run (Sys.init c02A c02A 3 1000) c02Evs1).A.snd_buf.length = 1 ∧
     (Sys.run (Sys.init c02A c02A 3 1000) (c02Evs1 ++ c02Evs2)).now = 1017 ∧
     (∀ ev ∈ c02Evs2, SysC.isSend ev = false) := by decide
+
+/-! ### the same two theorems without the upper bound on the elapsed time
+
+The clock passes through every value (`SysC.run_reaches`); the bounded statements apply at the first
+moment past `2 D + interval_B`, and `SysC.Keep` carries the conclusion to every later state. -/
+
+open KcpVerif.Sys KcpVerif.SysC in
+/-- **Progress step (clean history), any later time**: as `C02_clean_progress_step`, for EVERY state
+reached more than `2 D + interval_B` ms after `s₁`. -/
+theorem C02_progress_step_clean (A B : Kcp) (D t0 : Nat) (ndA ndB : Bool) (hinit : CleanInit A B D) (hwin : WinInit A B)
+    (evs1 evs2 : List Ev) (hrun : RunNoWrap A.snd_nxt (Sys.init A B D t0 ndA ndB) (evs1 ++ evs2))
+    (ht1 : (Sys.run (Sys.init A B D t0 ndA ndB) evs1).now + 2 * D + B.interval.toNat <
+      (Sys.run (Sys.init A B D t0 ndA ndB) (evs1 ++ evs2)).now) :
+    o A.snd_nxt (Sys.run (Sys.init A B D t0 ndA ndB) evs1).A.snd_nxt ≤
+      o A.snd_nxt (Sys.run (Sys.init A B D t0 ndA ndB) (evs1 ++ evs2)).A.snd_una := by
+  obtain ⟨hr1, hr2⟩ := (runNoWrap_append A.snd_nxt evs1 evs2 _).mp hrun
+  obtain ⟨gab, gba, hc, hw, _⟩ := cleanwin_run (p := parOf A B) evs1 _ [] []
+    (clean_init A B D t0 ndA ndB hinit) (win_init A B D t0 ndA ndB hinit hwin) hr1
+  rw [SysC.run_append] at ht1 ⊢
+  exact (clean_progress_ever hc hw evs2 hr2 (by rw [run_D]; exact ht1)).2
+
+open KcpVerif.Sys KcpVerif.SysC in
+/-- **Drain (clean history), any later time**: the writer has stopped with an empty send queue at
+`s₁`; in EVERY state reached more than `2 D + interval_B` ms later, `A.WaitSnd = 0`. -/
+theorem C02_drain_clean (A B : Kcp) (D t0 : Nat) (ndA ndB : Bool) (hinit : CleanInit A B D) (hwin : WinInit A B)
+    (evs1 evs2 : List Ev) (hrun : RunNoWrap A.snd_nxt (Sys.init A B D t0 ndA ndB) (evs1 ++ evs2))
+    (hq : (Sys.run (Sys.init A B D t0 ndA ndB) evs1).A.snd_queue = []) (hns : ∀ ev ∈ evs2, isSend ev = false)
+    (ht1 : (Sys.run (Sys.init A B D t0 ndA ndB) evs1).now + 2 * D + B.interval.toNat <
+      (Sys.run (Sys.init A B D t0 ndA ndB) (evs1 ++ evs2)).now) :
+    (Sys.run (Sys.init A B D t0 ndA ndB) (evs1 ++ evs2)).A.waitSnd = 0 := by
+  obtain ⟨hr1, hr2⟩ := (runNoWrap_append A.snd_nxt evs1 evs2 _).mp hrun
+  obtain ⟨gab, gba, hc, hw, _⟩ := cleanwin_run (p := parOf A B) evs1 _ [] []
+    (clean_init A B D t0 ndA ndB hinit) (win_init A B D t0 ndA ndB hinit hwin) hr1
+  rw [SysC.run_append] at ht1 ⊢
+  exact clean_drain_ever hc hw evs2 hr2 hq hns (by rw [run_D]; exact ht1)
 
 end KcpVerif.Props
